@@ -139,6 +139,8 @@ struct RReq {
     t: i64,
     kind: RKind,
     beh: Beh,
+    /// no receiver is subscribed to the account stream while this request's batch runs
+    nosub: bool,
 }
 
 /// what the client does with the response of this request
@@ -273,6 +275,9 @@ fn rreq_json(r: &RReq) -> Value {
             v["ms"] = json!(ms);
         }
     }
+    if r.nosub {
+        v["nosub"] = json!(true);
+    }
     v
 }
 fn rreq_json_kind(r: &RReq) -> Value {
@@ -299,7 +304,7 @@ fn rreq_from(v: &Value) -> RReq {
         Some("giveup") => Beh::GiveUp(v["ms"].as_u64().unwrap_or(0)),
         _ => Beh::Await,
     };
-    RReq { t: v["t"].as_i64().unwrap(), kind, beh }
+    RReq { t: v["t"].as_i64().unwrap(), kind, beh, nosub: v["nosub"].as_bool().unwrap_or(false) }
 }
 
 // ---------------------------------------------------------------------------------------------
@@ -541,6 +546,9 @@ fn coq_dop(o: &DOp) -> String {
         DOp::AccTime(t) => format!("(DAccTime {})", zz(*t)),
         DOp::Open(r) => format!("(DOpen {})", coq_req(r)),
     }
+}
+fn coq_batch(bt: &[RReq]) -> String {
+    pair(&b(!bt.iter().any(|rq| rq.nosub)), &list(&bt.iter().map(coq_rreq).collect::<Vec<_>>()))
 }
 fn coq_rreq(r: &RReq) -> String {
     let k = match &r.kind {
@@ -860,6 +868,104 @@ enum Resp {
     Early(Box<Resp>),
 }
 
+/// a request for the exchange's request channel whose response nobody will read
+fn dropped_request(ex: ExchangeId, time: DateTime<Utc>, kind: &RKind) -> MockExchangeRequest {
+    match kind {
+        RKind::Open(r) => {
+            let (tx, rx) = oneshot::channel();
+            drop(rx);
+            MockExchangeRequest::open_order(time, tx, request_of(ex, r))
+        }
+        RKind::Snapshot => {
+            let (tx, rx) = oneshot::channel();
+            drop(rx);
+            MockExchangeRequest::fetch_account_snapshot(time, tx)
+        }
+        RKind::Balances => {
+            let (tx, rx) = oneshot::channel();
+            drop(rx);
+            MockExchangeRequest::fetch_balances(time, tx)
+        }
+        RKind::Orders => {
+            let (tx, rx) = oneshot::channel();
+            drop(rx);
+            MockExchangeRequest::fetch_orders_open(time, tx)
+        }
+        RKind::Trades(since) => {
+            let (tx, rx) = oneshot::channel();
+            drop(rx);
+            MockExchangeRequest::fetch_trades(time, tx, time_of(*since))
+        }
+        RKind::Cancel => {
+            let (tx, rx) = oneshot::channel();
+            drop(rx);
+            MockExchangeRequest::cancel_order(
+                time,
+                tx,
+                OrderEvent { key: key_of(ex, 0, 0, 0), state: RequestCancel { id: None } },
+            )
+        }
+    }
+}
+
+/// one request through the public `MockExchangeRequest` API on the request channel, awaiting the
+/// oneshot response: a polling client that never took the account-event receiver
+async fn raw_call(
+    tx: &mpsc::UnboundedSender<MockExchangeRequest>,
+    ex: ExchangeId,
+    time: DateTime<Utc>,
+    kind: &RKind,
+) -> Resp {
+    match kind {
+        RKind::Open(r) => {
+            let request = request_of(ex, r);
+            let offline = Order {
+                key: request.key.clone(),
+                side: request.state.side,
+                price: request.state.price,
+                quantity: request.state.quantity,
+                kind: request.state.kind,
+                time_in_force: request.state.time_in_force,
+                state: Err(UnindexedOrderError::Connectivity(ConnectivityError::ExchangeOffline(ex))),
+            };
+            let (otx, orx) = oneshot::channel();
+            if tx.send(MockExchangeRequest::open_order(time, otx, request)).is_err() {
+                return Resp::Open(offline);
+            }
+            Resp::Open(orx.await.unwrap_or(offline))
+        }
+        RKind::Snapshot => {
+            let (otx, orx) = oneshot::channel();
+            let _ = tx.send(MockExchangeRequest::fetch_account_snapshot(time, otx));
+            Resp::Snapshot(orx.await.ok())
+        }
+        RKind::Balances => {
+            let (otx, orx) = oneshot::channel();
+            let _ = tx.send(MockExchangeRequest::fetch_balances(time, otx));
+            Resp::Balances(orx.await.ok())
+        }
+        RKind::Orders => {
+            let (otx, orx) = oneshot::channel();
+            let _ = tx.send(MockExchangeRequest::fetch_orders_open(time, otx));
+            Resp::Orders(orx.await.ok())
+        }
+        RKind::Trades(since) => {
+            let (otx, orx) = oneshot::channel();
+            let _ = tx.send(MockExchangeRequest::fetch_trades(time, otx, time_of(*since)));
+            Resp::Trades(orx.await.ok())
+        }
+        RKind::Cancel => {
+            let (otx, orx) = oneshot::channel();
+            let _ = tx.send(MockExchangeRequest::cancel_order(
+                time,
+                otx,
+                OrderEvent { key: key_of(ex, 0, 0, 0), state: RequestCancel { id: None } },
+            ));
+            Resp::Cancel(orx.await.is_err())
+        }
+    }
+}
+
 fn run_run(s: &Setup, batches: &[Vec<RReq>]) -> Ran {
     let ex = EXCHANGES[s.exchange as usize % 3];
     let rt = tokio::runtime::Builder::new_current_thread()
@@ -880,13 +986,11 @@ fn run_run(s: &Setup, batches: &[Vec<RReq>]) -> Ran {
             }
             time_of(g.1)
         };
-        let client: MockExecution<_> = ExecutionClient::new(MockExecutionClientConfig {
-            mocked_exchange: ex,
-            clock,
-            request_tx,
-            event_rx,
-        });
-        let mut stream = client.account_stream(&[], &[]).await.expect("account stream");
+        // a Sender clone is not a receiver: kept only to subscribe again later
+        let event_tx = exchange.event_tx.clone();
+        let mut first_rx = Some(event_rx);
+        // the subscribed client (real MockExecution + its account stream), when there is one
+        let mut live = None;
         let handle = tokio::spawn(exchange.run());
 
         let mut obs = vec![];
@@ -894,7 +998,31 @@ fn run_run(s: &Setup, batches: &[Vec<RReq>]) -> Ran {
         let mut nontrivial = false;
         for batch in batches {
             tags.push(format!("run:batch_size:{}", batch.len().min(4)));
-            {
+            let want_sub = !batch.iter().any(|rq| rq.nosub);
+            if want_sub && live.is_none() {
+                let rx = first_rx.take().unwrap_or_else(|| {
+                    tags.push("run:sub:resubscribed".into());
+                    event_tx.subscribe()
+                });
+                let client: MockExecution<_> = ExecutionClient::new(MockExecutionClientConfig {
+                    mocked_exchange: ex,
+                    clock: clock.clone(),
+                    request_tx: request_tx.clone(),
+                    event_rx: rx,
+                });
+                let stream = client.account_stream(&[], &[]).await.expect("account stream");
+                live = Some((client, stream));
+            }
+            if !want_sub {
+                if live.take().is_some() {
+                    tags.push("run:sub:dropped".into());
+                }
+                if first_rx.take().is_some() {
+                    tags.push("run:sub:never_taken".into());
+                }
+            }
+            tags.push(if want_sub { "run:sub:yes".to_string() } else { "run:sub:no".to_string() });
+            if want_sub {
                 let mut g = times.lock().unwrap();
                 for rq in batch {
                     g.0.push_back(rq.t);
@@ -907,8 +1035,8 @@ fn run_run(s: &Setup, batches: &[Vec<RReq>]) -> Ran {
                     _ => instr_name(0),
                 })
                 .collect();
+            let resps: Vec<Resp> = if let Some((client, _)) = live.as_ref() {
             let futs = batch.iter().zip(instr_names.iter()).map(|(rq, name)| {
-                let client = &client;
                 let call = async move {
                     match &rq.kind {
                         RKind::Open(r) => {
@@ -958,50 +1086,42 @@ fn run_run(s: &Setup, batches: &[Vec<RReq>]) -> Ran {
                         _ => {
                             // raw request straight onto the exchange's channel; nobody listens
                             drop(call);
-                            let time = client.time_request();
-                            let request = match &rq.kind {
-                                RKind::Open(r) => {
-                                    let (tx, rx) = oneshot::channel();
-                                    drop(rx);
-                                    MockExchangeRequest::open_order(time, tx, request_of(ex, r))
-                                }
-                                RKind::Snapshot => {
-                                    let (tx, rx) = oneshot::channel();
-                                    drop(rx);
-                                    MockExchangeRequest::fetch_account_snapshot(time, tx)
-                                }
-                                RKind::Balances => {
-                                    let (tx, rx) = oneshot::channel();
-                                    drop(rx);
-                                    MockExchangeRequest::fetch_balances(time, tx)
-                                }
-                                RKind::Orders => {
-                                    let (tx, rx) = oneshot::channel();
-                                    drop(rx);
-                                    MockExchangeRequest::fetch_orders_open(time, tx)
-                                }
-                                RKind::Trades(since) => {
-                                    let (tx, rx) = oneshot::channel();
-                                    drop(rx);
-                                    MockExchangeRequest::fetch_trades(time, tx, time_of(*since))
-                                }
-                                RKind::Cancel => {
-                                    let (tx, rx) = oneshot::channel();
-                                    drop(rx);
-                                    MockExchangeRequest::cancel_order(
-                                        time,
-                                        tx,
-                                        OrderEvent { key: key_of(ex, 0, 0, 0), state: RequestCancel { id: None } },
-                                    )
-                                }
-                            };
+                            let request = dropped_request(ex, client.time_request(), &rq.kind);
                             let _ = client.request_tx.send(request);
                             Resp::NotAwaited
                         }
                     }
                 }
             });
-            let resps: Vec<Resp> = futures::future::join_all(futs).await;
+            futures::future::join_all(futs).await
+            } else {
+                // nobody is subscribed: a polling client on the public request API
+                let futs = batch.iter().map(|rq| {
+                    let tx = &request_tx;
+                    async move {
+                        let time = time_of(rq.t);
+                        match rq.beh {
+                            b if b.awaited(latency) => raw_call(tx, ex, time, &rq.kind).await,
+                            Beh::GiveUp(ms) => {
+                                match tokio::time::timeout(
+                                    std::time::Duration::from_millis(ms),
+                                    raw_call(tx, ex, time, &rq.kind),
+                                )
+                                .await
+                                {
+                                    Ok(r) => Resp::Early(Box::new(r)),
+                                    Err(_) => Resp::NotAwaited,
+                                }
+                            }
+                            _ => {
+                                let _ = tx.send(dropped_request(ex, time, &rq.kind));
+                                Resp::NotAwaited
+                            }
+                        }
+                    }
+                });
+                futures::future::join_all(futs).await
+            };
             // let every latency task finish, then drain the account stream
             tokio::time::sleep(std::time::Duration::from_millis(latency + 1)).await;
             for _ in 0..4 {
@@ -1009,7 +1129,13 @@ fn run_run(s: &Setup, batches: &[Vec<RReq>]) -> Ran {
             }
             let mut ok = true;
             let mut events = vec![];
-            while let Some(Some(ev)) = stream.next().now_or_never() {
+            if live.is_none() && event_tx.receiver_count() != 0 {
+                ok = false; // the harness itself must not hold a receiver in these batches
+            }
+            while let Some(Some(ev)) = match live.as_mut() {
+                Some((_, stream)) => stream.next().now_or_never(),
+                None => None,
+            } {
                 nontrivial = true;
                 if ev.exchange != ex {
                     ok = false;
@@ -1097,8 +1223,23 @@ fn run_run(s: &Setup, batches: &[Vec<RReq>]) -> Ran {
                 resp_terms.push(term);
             }
             // follow-up queries at the time of the batch's last request
-            let snap = client.account_snapshot(&[], &[]).await.ok();
-            let trades = client.fetch_trades(DateTime::<Utc>::MIN_UTC).await.ok();
+            let (snap, trades) = match live.as_ref() {
+                Some((client, _)) => (
+                    client.account_snapshot(&[], &[]).await.ok(),
+                    client.fetch_trades(DateTime::<Utc>::MIN_UTC).await.ok(),
+                ),
+                None => {
+                    let time = time_of(batch.last().map(|rq| rq.t).unwrap_or(0));
+                    let sn = match raw_call(&request_tx, ex, time, &RKind::Snapshot).await {
+                        Resp::Snapshot(x) => x,
+                        _ => None,
+                    };
+                    let (otx, orx) = oneshot::channel();
+                    let _ = request_tx.send(MockExchangeRequest::fetch_trades(time, otx, DateTime::<Utc>::MIN_UTC));
+                    let tr = orx.await.ok();
+                    (sn, tr)
+                }
+            };
             let snap_term = snap.map(|sn| {
                 let (bals, open, canc, sok) = obs_snapshot(&sn, ex);
                 ok &= sok;
@@ -1107,8 +1248,10 @@ fn run_run(s: &Setup, batches: &[Vec<RReq>]) -> Ran {
             let trades_term = trades.map(|ts| list(&ts.iter().map(obs_trade).collect::<Vec<_>>()));
             // nothing may arrive on the account stream because of queries
             tokio::time::sleep(std::time::Duration::from_millis(latency + 1)).await;
-            if let Some(Some(_)) = stream.next().now_or_never() {
-                ok = false;
+            if let Some((_, stream)) = live.as_mut() {
+                if let Some(Some(_)) = stream.next().now_or_never() {
+                    ok = false;
+                }
             }
             obs.push(format!(
                 "(mkRobs {} {} {} {} {})",
@@ -1119,7 +1262,8 @@ fn run_run(s: &Setup, batches: &[Vec<RReq>]) -> Ran {
                 b(ok)
             ));
         }
-        drop(client);
+        drop(live);
+        drop(request_tx);
         let _ = handle.await;
         (obs, tags, nontrivial)
     });
@@ -1127,7 +1271,7 @@ fn run_run(s: &Setup, batches: &[Vec<RReq>]) -> Ran {
         "(CRun {} {} {} {})",
         coq_cfg(s),
         coq_init(s),
-        list(&batches.iter().map(|bt| list(&bt.iter().map(coq_rreq).collect::<Vec<_>>())).collect::<Vec<_>>()),
+        list(&batches.iter().map(|bt| coq_batch(bt)).collect::<Vec<_>>()),
         list(&obs)
     );
     Ran { coq, tags, nontrivial }
@@ -1170,12 +1314,7 @@ fn emit_run(em: &mut Emitter, stream: &'static str, s: &Setup, batches: &[Vec<RR
             "(CRun {} {} {} [mkRobs [] [] None None false])",
             coq_cfg(s),
             coq_init(s),
-            list(
-                &batches
-                    .iter()
-                    .map(|bt| list(&bt.iter().map(coq_rreq).collect::<Vec<_>>()))
-                    .collect::<Vec<_>>()
-            )
+            list(&batches.iter().map(|bt| coq_batch(bt)).collect::<Vec<_>>())
         ),
         tags: vec!["harness:case_panicked".to_string()],
         nontrivial: false,
@@ -1702,7 +1841,7 @@ fn gen_run_case_once(r: &mut Rng, max_reqs: u64, adversarial: bool) -> (Setup, V
                 1 => Beh::Drop,
                 _ => Beh::Await,
             };
-            batch.push(RReq { t: now, kind, beh });
+            batch.push(RReq { t: now, kind, beh, nosub: false });
         }
         left -= size;
         batches.push(batch);
@@ -1724,7 +1863,7 @@ fn gen_run_case_once(r: &mut Rng, max_reqs: u64, adversarial: bool) -> (Setup, V
                 0 => now + r.range(0, 50),
                 _ => (now + r.range(-400, 400)).max(0),
             };
-            batches.push(vec![RReq { t: now, kind: RKind::Trades(since), beh: Beh::Await }]);
+            batches.push(vec![RReq { t: now, kind: RKind::Trades(since), beh: Beh::Await, nosub: false }]);
         }
     }
     let mut extra = vec![match c {
@@ -1732,6 +1871,29 @@ fn gen_run_case_once(r: &mut Rng, max_reqs: u64, adversarial: bool) -> (Setup, V
         Cls::Tiny => "magnitude:tiny",
         Cls::Huge => "magnitude:huge",
     }];
+    // subscriber dimension: the account-event receiver is held throughout / dropped at a random
+    // point / never taken / absent for a stretch and taken (again) later
+    let nb = batches.len();
+    let (lo, hi, sub_tag) = match r.below(8) {
+        0 => (r.below(nb as u64) as usize, nb, "run:subs:dropped_midway"),
+        1 => (0, nb, "run:subs:never"),
+        2 => {
+            let a = r.below(nb as u64) as usize;
+            (a, a + 1 + r.below((nb - a) as u64) as usize, "run:subs:resubscribed_later")
+        }
+        3 => (0, 1 + r.below(nb as u64) as usize, "run:subs:late_first_subscription"),
+        _ => (0, 0, "run:subs:held"),
+    };
+    for batch in batches[lo..hi.min(nb)].iter_mut() {
+        for rq in batch.iter_mut() {
+            rq.nosub = true;
+            if matches!(rq.kind, RKind::Open(_)) {
+                // unheard orders are only known through their response
+                rq.beh = Beh::Await;
+            }
+        }
+    }
+    extra.push(sub_tag);
     extra.push(match time_mode {
         0 => "run:times:monotone",
         1 => "run:times:jitter",
